@@ -255,6 +255,50 @@ def run_reconf(acc, front, framing, bc, ign, steps, hosted0=(1, 2, 3)):
     return problems
 
 
+SMALL = stores.Layout(('seq', 0, 3), True, False)
+
+
+def run_nonuniform(acc, front, framing, small_unit):
+    """hosted units whose tables differ in size: a broadcast write that one unit must refuse (address outside ITS table)
+    is still applied to every unit that can take it"""
+    reset.control_block()
+    log = []
+    lays = dict((u, SMALL if u == small_unit else scenario.LAY) for u in (1, 2, 3))
+    real, refs, wrapped = {}, {}, {}
+    for u in (1, 2, 3):
+        st = lays[u].initial_state()
+        real[u] = lays[u].build(st)
+        refs[u] = lays[u].ref(st)
+        wrapped[u] = Counting(real[u], log, u)
+    ctx = servers.server_context(wrapped, False)
+    ref = routing.RefServer(refs, False, True, False)
+    srv = servers.Server(front, framing, ctx, broadcast_enable=True)
+    conn = srv.open()
+    problems = []
+    reqs = [dict(kind='req', fc=6, address=5, value=0x0BCA), dict(kind='req', fc=16, address=4, count=2, byte_count=4, registers=[0x1601, 0x1602]),
+            dict(kind='req', fc=5, address=6, value=0xFF00)]
+    for i, m in enumerate(reqs):
+        ref.handle(0, m)
+        writes = conn.run_script([scenario.frame(framing, 0, 0x0400 + i, m)])
+        if writes:
+            problems.append('reply-on-broadcast')
+    after = dict((u, lays[u].dump(real[u])) for u in real)
+    want = dict((u, lays[u].dump_ref(ref.stores[u])) for u in real)
+    for u in after:
+        if after[u] != want[u]:
+            problems.append('not-applied-to-all')
+    for where, e in srv.escaped:
+        problems.append('escape:' + type(e).__name__)
+    srv.shutdown()
+    acc.inc('transitions', len(reqs))
+    acc.inc('evaluations')
+    for what in sorted(set(problems)):
+        acc.violation('C10/%s/%s/multi/bc=1,ign=0/non-uniform-units/%s' % (front, framing, what),
+                      dict(front=front, framing=framing, hosted=[1, 2, 3], nonuniform=small_unit),
+                      '%s: unit %d has 3-cell tables, the others 8-cell ones; broadcast writes to addresses 4..6' % (what, small_unit), '%s/%s' % (front, framing))
+    return problems
+
+
 def run_one(acc, front, framing, hosted, bc, ign, steps, record=True):
     ctx, ref, real, log = build(hosted, bc, ign)
     srv = servers.Server(front, framing, ctx, broadcast_enable=bc, ignore_missing_slaves=ign)
@@ -360,6 +404,10 @@ def shard(args):
             for steps in RECONF_EMPTY:
                 run_reconf(acc, front, framing, bc, ign, steps, hosted0=())
                 n += 1
+    if not front.startswith('tw'):
+        for small_unit in (1, 2, 3):
+            run_nonuniform(acc, front, framing, small_unit)
+            n += 1
     run_defaults(acc, front, framing)
     if framing == 'tcp' and front in ('sync-tcp', 'sync-udp', 'aio-udp', 'tw-udp'):
         for a, b in ((1, 2), (2, 1), (1, 1), (9, 1), (1, 9)):
@@ -388,7 +436,9 @@ def run(tier, seed):
 
 def replay(w):
     acc = Acc()
-    if w.get('reconf'):
+    if w.get('nonuniform'):
+        p = run_nonuniform(acc, w['front'], w['framing'], w['nonuniform'])
+    elif w.get('reconf'):
         p = run_reconf(acc, w['front'], w['framing'], w['bc'], w['ign'], [tuple(x) for x in w['reconf']], hosted0=tuple(w['hosted']))
     elif w.get('stale'):
         p = run_stale_header(acc, w['front'], w['framing'], tuple(w['hosted']), w['stale'][0], w['stale'][1])
